@@ -331,10 +331,27 @@ def parsePEL(stream: DataStream, config: Config, exit_on_error: bool):
     return eid, prettyPrint(json.dumps(out, indent=4))
 
 
+def openPELFile(file: str):
+    """
+    Opens a PEL file for reading.
+
+    Returns: The opened file, or None after a diagnostic on stderr if the file
+             cannot be opened (e.g. it was removed after the directory listing).
+    """
+    try:
+        return open(file, 'rb')
+    except OSError as e:
+        print(f"Exception: No PEL parsed for {file}: {e}", file=sys.stderr)
+        return None
+
+
 def parseAndWriteOutput(file: str, output_dir: str, config: Config,
                         delete_after_parsing: bool) -> None:
 
-    with open(file, 'rb') as fd:
+    fd = openPELFile(file)
+    if fd is None:
+        return
+    with fd:
         data = fd.read()
         stream = DataStream(data, byte_order='big', is_signed=False)
 
@@ -493,7 +510,10 @@ def parsePelFromPLID(path: str, config: Config):
     root, file_list = getFileList(path, config.extension, config.rev)
     final_summary = {}
     for file in file_list:
-        with open(os.path.join(root, file), 'rb') as fd:
+        fd = openPELFile(os.path.join(root, file))
+        if fd is None:
+            continue
+        with fd:
             data = fd.read()
             stream = DataStream(data, byte_order='big', is_signed=False)
             try:
@@ -527,7 +547,10 @@ def parsePelFromSRCID(path: str, config: Config):
     root, file_list = getFileList(path, config.extension, config.rev)
     final_summary = {}
     for file in file_list:
-        with open(os.path.join(root, file), 'rb') as fd:
+        fd = openPELFile(os.path.join(root, file))
+        if fd is None:
+            continue
+        with fd:
             data = fd.read()
             stream = DataStream(data, byte_order='big', is_signed=False)
             try:
@@ -593,7 +616,10 @@ def extractAndSummarizePEL(file: str, config: Config):
     Returns: Event ID (eid) and summary extracted from the PEL.
             If no PEL is parsed, empty strings are returned.
     """
-    with open(file, 'rb') as fd:
+    fd = openPELFile(file)
+    if fd is None:
+        return "", ""
+    with fd:
         data = fd.read()
         stream = DataStream(data, byte_order='big', is_signed=False)
         try:
@@ -646,7 +672,10 @@ def extractAllPELsData(path: str, config: Config):
         print("[")
     firstPELPrinted = False
     for file in file_list:
-        with open(os.path.join(root, file), 'rb') as fd:
+        fd = openPELFile(os.path.join(root, file))
+        if fd is None:
+            continue
+        with fd:
             data = fd.read()
             try:
                 stream = DataStream(data, byte_order='big', is_signed=False)
@@ -694,7 +723,10 @@ def printPELCount(path: str, config: Config):
     count = 0
     root, file_list = getFileList(path, config.extension)
     for file in file_list:
-        with open(os.path.join(root, file), 'rb') as fd:
+        fd = openPELFile(os.path.join(root, file))
+        if fd is None:
+            continue
+        with fd:
             data = fd.read()
             stream = DataStream(data, byte_order='big', is_signed=False)
             try:
